@@ -360,12 +360,15 @@ def run_two_devices(S, tier):
     from fcp.error import Logger
 
     L = 4 if tier == "quick" else 5
-    for pe, pb in (((2,), (2,)), ((3,), (2, 5)), ((1, -1), (3,))):
-        lines = ['version: "3"']
+    # 'interleaved': the messages of one device are not declared next to each other (ecu, bms, ecu ...)
+    for pe, pb, order in (((2,), (2,), "grouped"), ((3,), (2, 5), "grouped"), ((1, -1), (3,), "grouped"), ((3,), (2, 5), "interleaved"), ((2, 3), (3, 2), "interleaved")):
+        decl = []
         for dev, ps, base in (("ecu", pe, 100), ("bms", pb, 200)):
             for i, p in enumerate(ps):
-                lines.append("struct %s%d { v @0: u8, }" % (dev.capitalize(), i))
-                lines.append('impl can for %s%d { id: %d, device: "%s", period: %d, }' % (dev.capitalize(), i, base + i, dev, p))
+                decl.append((i, dev, "struct %s%d { v @0: u8, }\n" % (dev.capitalize(), i) + 'impl can for %s%d { id: %d, device: "%s", period: %d, }' % (dev.capitalize(), i, base + i, dev, p)))
+        if order == "interleaved":
+            decl.sort(key=lambda x: (x[0], x[1] == "ecu"))
+        lines = ['version: "3"'] + [d[2] for d in decl]
         text = "\n".join(lines) + "\n"
         wd = tempfile.mkdtemp(prefix="fcpmc-c19t-")
         try:
@@ -376,7 +379,7 @@ def run_two_devices(S, tier):
             open(os.path.join(wd, "main2.c"), "w").write(main_c)
             exe = os.path.join(wd, "two")
             p = subprocess.run(["gcc"] + cbuild.CC_FLAGS + ["-I", wd, "-o", exe, os.path.join(wd, "main2.c"), os.path.join(wd, "ecu_can.c"), os.path.join(wd, "bms_can.c"), os.path.join(wd, "can_signal_parser.c")], stdout=subprocess.PIPE, stderr=subprocess.PIPE, text=True)
-            inp0 = {"text": text, "periods": {"ecu": list(pe), "bms": list(pb)}}
+            inp0 = {"text": text, "periods": {"ecu": list(pe), "bms": list(pb)}, "declaration_order": order}
             if p.returncode != 0:
                 S.violation("C19.build", "C19.build/two-devices-do-not-link", inp0, expected="links", actual=p.stderr[-800:])
                 continue
